@@ -106,8 +106,8 @@ func c04Plan(tier string) []PlanItem {
 func init() {
 	oracles["C04"] = oracleC04
 	props["C04"] = &propDef{
-		Level: "exploration",
-		Rule:  "product of payload alphabet (50 record shapes incl. own payload variants, wrong types, missing/duplicate/case-variant keys, truncated, 1 MiB, invalid UTF-8) x caller state {leader, follower, demoted, stopped} x {ValidateToken, ValidateTokenOrDemote} x context {background, cancelled, 50ms deadline, 5s deadline}; on each, every execution with <= D deviations (position of the outside write and of the call at every choice point, read delayed up to H/2, read error, read hang past the deadline); non-trivial = a validation call returned; distinct = distinct observation-trace hash",
+		Level:  "exploration",
+		Rule:   "product of payload alphabet (50 record shapes incl. own payload variants, wrong types, missing/duplicate/case-variant keys, truncated, 1 MiB, invalid UTF-8) x caller state {leader, follower, demoted, stopped} x {ValidateToken, ValidateTokenOrDemote} x context {background, cancelled, 50ms deadline, 5s deadline}; on each, every execution with <= D deviations (position of the outside write and of the call at every choice point, read delayed up to H/2, read error, read hang past the deadline); non-trivial = a validation call returned; distinct = distinct observation-trace hash",
 		Assume: []string{"byte strings outside the alphabet are not decided", "the read's linearisation point is the instant the harness applies the Get"},
 		Plan:   c04Plan,
 	}
